@@ -201,6 +201,7 @@ def correspond(ctx):
     rng = ctx.rng
     res = Result()
     lines, impl = [], []
+    seq_start = []
     nseq = ctx.pick(250, 8000)
     maxops = 40
     d0 = scratch()
@@ -211,6 +212,7 @@ def correspond(ctx):
             d = os.path.join(d0, f"s{i}")
             os.mkdir(d)
             run = Runner(d, sz, ln, per)
+            seq_start.append((len(lines), sz, ln, per, ops))
             lines.append(f"parr create {sz} {ln} {per}"); impl.append("ok")
             res.count(f"len%per={'0' if ln % per == 0 else 'nonzero'}")
             closed = False
@@ -236,6 +238,11 @@ def correspond(ctx):
         shutil.rmtree(d0, ignore_errors=True)
     model = ctx.driver.batch(lines)
     compare(res, lines, impl, model)
+    del _DISAGREE[:]
+    for k, (st, sz, ln, per, ops) in enumerate(seq_start):
+        en = seq_start[k + 1][0] if k + 1 < len(seq_start) else len(lines)
+        if any(a != b for a, b in zip(impl[st:en], model[st:en])):
+            _DISAGREE.append((sz, ln, per, ops))
     # enrich the first disagreement with its sequence context
     if res.disagreements:
         first = res.disagreements[0]["case"]
@@ -253,27 +260,23 @@ def correspond(ctx):
 
 
 # ---------------------------------------------------------------------------------------------------------
-def oracle(ctx, res):
-    """the property on the real code against a plain Python list (no Lean model involved)"""
+_DISAGREE = []      # (item_size, array_len, items_per_file, ops) of sequences on which model and implementation disagreed
+
+
+def check_sequence(res, viol, d0, tag, sz, ln, per, ops, probe):
+    """one operation sequence on the real array against a plain Python list.  probe=True reads the whole array after every
+    step (failing operations must leave it unchanged); probe=False observes ONLY what the sequence itself reads — a full
+    read touches every chunk file and would repair or hide state that the sequence leaves stale."""
     from data_persistence.persistent_array import SPFLBArray
-    rng = ctx.rng
-    d0 = scratch()
-
-    def viol(sig, what, inp):
-        if not any(v["signature"] == sig for v in res.violations):
-            res.violations.append({"signature": sig, "what": what, "input": inp})
-
-    try:
-        for i in range(ctx.pick(150, 4000)):
-            sz, ln, per = params(rng, i, ctx.thorough)
-            ops = gen_ops(rng, sz, ln, rng.randint(3, 40))
-            d = os.path.join(d0, f"o{i}"); os.mkdir(d)
+    if True:
+        if True:
+            d = os.path.join(d0, tag); os.mkdir(d)
             path = os.path.join(d, "arr")
             arr = SPFLBArray.create(path, item_size=sz, array_len=ln, item_num_in_one_file=per)
             ref = [b"\x00" * sz] * ln
             closed = False
             hist = []
-            inp = {"params": {"item_size": sz, "array_len": ln, "items_per_file": per}, "ops": hist}
+            inp = {"params": {"item_size": sz, "array_len": ln, "items_per_file": per}, "ops": hist, "full_read_after_every_step": probe}
 
             def pad(v):
                 return b"\x00" * (sz - len(v)) + bytes(v)
@@ -354,7 +357,7 @@ def oracle(ctx, res):
                 except Exception as e:
                     viol("a valid operation raised", f"{op_line(op)}: {type(e).__name__}: {e}", dict(inp))
                 # after every step: full read equals the model, and no foreign files
-                if not closed:
+                if not closed and probe:
                     try:
                         if arr[:] != ref:
                             viol("full read differs from the list model after an operation",
@@ -378,6 +381,23 @@ def oracle(ctx, res):
                 viol("reopen raised", f"{type(e).__name__}: {e}", dict(inp))
             res.evaluations += 1
             shutil.rmtree(d, ignore_errors=True)
+
+
+def oracle(ctx, res):
+    """the property on the real code against a plain Python list (no Lean model involved)"""
+    from data_persistence.persistent_array import SPFLBArray
+    rng = ctx.rng
+    d0 = scratch()
+
+    def viol(sig, what, inp):
+        if not any(v["signature"] == sig for v in res.violations):
+            res.violations.append({"signature": sig, "what": what, "input": inp})
+
+    try:
+        for i in range(ctx.pick(150, 4000)):
+            sz, ln, per = params(rng, i, ctx.thorough)
+            ops = gen_ops(rng, sz, ln, rng.randint(3, 40))
+            check_sequence(res, viol, d0, f"o{i}", sz, ln, per, ops, probe=(i % 2 == 0))
         # creation / opening contracts
         d = os.path.join(d0, "c"); os.mkdir(d)
         p = os.path.join(d, "x")
@@ -421,6 +441,20 @@ def _expect_raise(f, exc, viol, sig, inp):
 
 def search(ctx, broken, res0):
     res = Result()
+
+    def viol(sig, what, inp):
+        if not any(v["signature"] == sig for v in res.violations):
+            res.violations.append({"signature": sig, "what": what, "input": inp})
+    # first: the very sequences on which the model and the implementation disagreed, against the plain Python list
+    d0 = scratch()
+    try:
+        for n, (sz, ln, per, ops) in enumerate(_DISAGREE[:40]):
+            for probe in (False, True):
+                check_sequence(res, viol, d0, f"d{n}{int(probe)}", sz, ln, per, ops, probe)
+    finally:
+        shutil.rmtree(d0, ignore_errors=True)
+    if res.violations:
+        return res
     ctx.tier = "thorough"
     return oracle(ctx, res)
 
